@@ -16,7 +16,12 @@ ALLOPS = ["utc", "delta", "abbrev", "odt", "print", "printshort"]
 ND = 2   # direct processors in histdrv
 
 
+SENTINEL_YEAR = 1872      # LocalDate::forEpochSeconds(kInvalidEpochSeconds).year()
+
+
 def arg_for_year(y):
+    if y == SENTINEL_YEAR:
+        return -2**31         # the error sentinel as the argument
     return calendar.timegm((y, 7, 15, 12, 0, 0)) - EPOCH2000
 
 
@@ -37,9 +42,9 @@ def write_cfg(path, zones, years, out, ndirect, k, rebind=ALLOPS, clears=True, d
     open(path, 'w').write('\n'.join(s) + '\n')
 
 
-def model_edges(ndirect, k, work, tag):
+def model_edges(ndirect, k, work, tag, years=None, out=None):
     cfg = os.path.join(work, 'ZoneProc_%s.cfg' % tag)
-    write_cfg(cfg, ZONES, YEARS, OUT, ndirect, k)
+    write_cfg(cfg, ZONES, years or YEARS, out or OUT, ndirect, k)
     res = common.run_tlc('ZoneProc', cfg, workers=1, timeout=1200)
     common.tlc_must_pass(res, 'ZoneProc %s (Intended parameterisation)' % tag)
     edges = [e for e in common.tlc_prints(res.out) if isinstance(e, dict) and 'call' in e]
@@ -133,8 +138,9 @@ def real_class(op, ans):
     return 'name' if op in ('print', 'printshort') else 'ans'
 
 
-def model_proj(procs):
-    return [[p['bound'], p['year'], 1 if p['filled'] else 0] for p in procs]
+def model_proj(procs, kind='extended'):
+    # BasicZoneProcessor keys its cache by an int8 "tiny year": the error date's year is its invalid marker
+    return [[p['bound'], 0 if (kind == 'basic' and p['year'] == SENTINEL_YEAR) else p['year'], 1 if p['filled'] else 0] for p in procs]
 
 
 def real_proj(state, ndirect, k):
@@ -168,9 +174,9 @@ def replay_edges(chk, exe, kind, ndirect, k, edges, zidx, tag):
                 chk.violation(vkey + ':class', 'model answers %s, code answers %r after %s' % (c['answer'], st['ans'], hist),
                               {'kind': kind, 'K': k, 'history': [x['call'] for x in s]})
                 break
-            if real_proj(st['state'], ndirect, k) != model_proj(e['to']['procs']) or (k > 0 and st['rr'] != e['to']['rr']):
+            if real_proj(st['state'], ndirect, k) != model_proj(e['to']['procs'], kind) or (k > 0 and st['rr'] != e['to']['rr']):
                 chk.violation(vkey + ':state', 'processor state diverges from the model after %s: code %s rr=%s, model %s rr=%s' % (
-                    hist, real_proj(st['state'], ndirect, k), st['rr'], model_proj(e['to']['procs']), e['to']['rr']),
+                    hist, real_proj(st['state'], ndirect, k), st['rr'], model_proj(e['to']['procs'], kind), e['to']['rr']),
                     {'kind': kind, 'K': k, 'history': [x['call'] for x in s]})
                 break
     return len(scripts), nsteps
